@@ -1,16 +1,27 @@
 import RTA.Lemmas.RosNaive
+import RTA.Lemmas.RrSound
 import RTA.Spec.Ros2Exec
 /-! # C05 — the RTSS'21 round-robin-aware (rr) and busy-window-aware (bw) analyses are safe
 
-The schedule-level claim (no instance of any callback exceeds its self-consistent bound in
-any execution of the executor model) is STATED here over the executor transition system
-(`RTA/Spec/Ros2Exec.lean`) and explored by the falsifier (iterating the real singleton
-analyses from the WCETs to a fixed point, then executing the executor model under random /
-late / adversarial budget placements); mechanising Theorems 2 and 3 of the paper is out of
-reach of this effort (see DESIGN.md §9).  Proved here are the analysis-side facts the
-paper's argument consumes: both analyses equal naive all-offset linear-scan evaluation of
-their defining inequalities (so the pruned step enumeration of Lemma 19 and the iterative
-fixed points lose nothing), and the relevant-step enumeration equals the brute-force one. -/
+Proved here, for the **rr** analysis with singleton subchains (every callback analysed on its
+own, the setting of the property): if the vector of assumed response-time bounds reproduces
+itself — every callback's analysis returns `Ok(R)` with `R` at most its assumed bound — then
+EVERY instance of EVERY callback completes within its bound (`rr_safe`): for every supply
+process that delivers at least the supply-bound function in every window (every compliant
+budget placement of a reservation, `rr_safe_reservation`), every release pattern within the
+arrival curves, every execution time up to the (scalar) WCET, mixed timer / polled workloads,
+known and unknown priorities.  The executor is specified at the schedule level with polling
+points (`PollingExecLegal`, `RTA/Lemmas/RrSound.lean`: non-preemptive; no idling; timers before
+polled callbacks; a polled instance starts only in the window of a polling point at which it
+was pending, at most one instance per polled callback and window; starvation freedom;
+priority order inside a window).  That runs of the executor transition system
+(`RTA/Spec/Ros2Exec.lean`) satisfy this Spec is checked on every run by executing the executor
+model (`vlib/ros_sim.py: check_polling_legal`), not proved.
+
+NOT proved: the schedule-level claim for the **bw** analysis and for multi-callback subchains
+(`RrSafe`-style statements over the transition system are kept below); for bw the
+analysis-side facts are proved (bw = naive all-offset evaluation; Lemma 19's step enumeration
+= brute force) and the schedule-level claim is explored by the falsifier. -/
 
 namespace RTA.C05
 open RTA RTA.Spec
@@ -29,7 +40,9 @@ def execCb (cb : Callback) : Exec.Cb :=
     prio := match cb.kind with | .polled p => p | _ => 0,
     cost := cb.cost.ofJobs 1 }
 
-/-- the full claim of C05 for rr (stated; explored; not proved) -/
+/-- the claim for rr phrased over the executor transition system itself (stated; `rr_safe` proves
+it over the schedule-level Spec; that runs of the transition system satisfy that Spec is
+checked by execution, not proved) -/
 def RrSafe : Prop :=
   ∀ (s : Supply) (wl : List Callback) (limit : Nat) (sigma : List Bool) (rels : Nat → List Nat),
     s.WF → SelfConsistentRr s wl limit →
@@ -38,6 +51,43 @@ def RrSafe : Prop :=
       ((List.range d).filter fun u => k ∈ rels (t + u)).length ≤ (wl.getD k default).arr.N d) →
     ∀ o ∈ Exec.run (wl.map execCb) (fun _ => none) sigma rels,
       o.2.2 ≤ o.2.1 + (wl.getD o.1 default).rtb
+
+/-- C05, rr (singleton subchains): a self-reproducing vector of assumed bounds bounds every
+response time of every callback -/
+theorem rr_safe (s : Sched.Sys) (σ : Nat → Bool) (E : Sched.ExecInfo) (hl : Sched.PollingExecLegal s σ E)
+    (sup : Supply) (hs : sup.WF) (hsbf : ∀ t d, sup.sbf d ≤ service σ t d)
+    (wl : List Callback) (C : Nat → Nat)
+    (hscalar : ∀ i, i < wl.length → (wl.getD i default).cost = .scalar (C i))
+    (hwf : ∀ cb ∈ wl, cb.arr.WF)
+    (htask : ∀ k, k < s.n → s.task k < wl.length)
+    (hkinds : Sched.KindsAgree wl E)
+    (hprio : ∀ i j, i < wl.length → j < wl.length → E.isTimer i = false → E.isTimer j = false →
+      E.prio i = E.prio j → i = j)
+    (hN : ∀ i t d, Sched.countOf s i t (t + d) ≤ (wl.getD i default).arr.N d)
+    (hcost : ∀ k, k < s.n → 1 ≤ s.cost k ∧ s.cost k ≤ C (s.task k))
+    (limit : Nat)
+    (hself : ∀ i, i < wl.length → ∃ R, rrSubchain sup wl [i] limit = .ok R ∧ R ≤ (wl.getD i default).rtb) :
+    ∀ j, j < s.n → Sched.MeetsBound s j (wl.getD (s.task j) default).rtb :=
+  Sched.rr_singleton_sound s σ E hl sup hs hsbf wl C hscalar hwf htask hkinds hprio hN hcost limit hself
+
+/-- the same on a periodic / deadline-constrained reservation, every compliant budget placement -/
+theorem rr_safe_reservation (s : Sched.Sys) (Q D P : Nat) (hQ : 1 ≤ Q) (hQD : Q ≤ D) (hDP : D ≤ P)
+    (σ : Nat → Bool) (hσ : Compliant Q D P σ) (E : Sched.ExecInfo) (hl : Sched.PollingExecLegal s σ E)
+    (wl : List Callback) (C : Nat → Nat)
+    (hscalar : ∀ i, i < wl.length → (wl.getD i default).cost = .scalar (C i))
+    (hwf : ∀ cb ∈ wl, cb.arr.WF)
+    (htask : ∀ k, k < s.n → s.task k < wl.length)
+    (hkinds : Sched.KindsAgree wl E)
+    (hprio : ∀ i j, i < wl.length → j < wl.length → E.isTimer i = false → E.isTimer j = false →
+      E.prio i = E.prio j → i = j)
+    (hN : ∀ i t d, Sched.countOf s i t (t + d) ≤ (wl.getD i default).arr.N d)
+    (hcost : ∀ k, k < s.n → 1 ≤ s.cost k ∧ s.cost k ≤ C (s.task k))
+    (limit : Nat)
+    (hself : ∀ i, i < wl.length → ∃ R, rrSubchain (.constrained Q D P) wl [i] limit = .ok R ∧
+      R ≤ (wl.getD i default).rtb) :
+    ∀ j, j < s.n → Sched.MeetsBound s j (wl.getD (s.task j) default).rtb :=
+  Sched.rr_singleton_sound s σ E hl (.constrained Q D P) ⟨hQ, hQD, hDP⟩
+    (fun t d => cSbf_sound Q D P hQ hQD hDP σ hσ t d) wl C hscalar hwf htask hkinds hprio hN hcost limit hself
 
 /-- analysis side: rr = naive linear-scan evaluation -/
 theorem rr_is_naive (s : Supply) (hs : s.WF) (wl : List Callback) (sub : List Nat) (limit : Nat)
